@@ -155,6 +155,29 @@ class Ctx:
         self.units['abstract_states'] += res.n_states()
         return res
 
+    def shared(self, module_name, src_id, new_id, why):
+        """an obligation of another property's rule module that this property depends on too, re-labelled: the same rule, evaluated
+        once per run (cached), reported under this property's id with the reason it is a necessary condition here"""
+        import importlib
+        cache = self.__dict__.setdefault('_shared', {})
+        if module_name not in cache:
+            cache[module_name] = importlib.import_module(f'sa.rules.{module_name}').check(self)
+        src = [x for x in cache[module_name] if x.id == src_id]
+        if not src:
+            from . import AnalysisError
+            raise AnalysisError(f'shared obligation {src_id} not produced by sa/rules/{module_name}.py')
+        src = src[0]
+        o = Ob(new_id, src.kind, f'{why} [= {src_id}: {src.text}]')
+        o.instances = src.instances
+        o.nontrivial = set(src.nontrivial)
+        o.samples = src.samples[:2]
+        o.stats = dict(src.stats)
+        o.broken = [b.replace(src_id, new_id, 1) for b in src.broken]
+        for f in src.findings:
+            g = Finding(new_id, f.where, f.construct, f.message, f.file, f.line, f.path, f.detail)
+            o.findings.append(g)
+        return o
+
     def func_graph(self, mod_func_name):
         """supergraph of a module-level function (no receiver)"""
         raise NotImplementedError
